@@ -272,9 +272,9 @@ impl ArbiterRunner {
         r is Pending ==> final(self).alive(),
         // the Future contract: Pending is returned only with a wake-up arranged — the channel has the waker   [C09,C10]
         r is Pending ==> final(self).rx.parked(),   // [C09,C10]
-//@insert after="ArbiterCommand::Execute(task_fut) => {"
+//@insert arm_start="ArbiterCommand::Execute(task_fut)"
                         let ghost t0 = r24_trace.len();
-//@insert arm_end="ArbiterCommand::Execute(task_fut) =>"
+//@insert arm_end="ArbiterCommand::Execute(task_fut)"
                         // a received task is started, exactly once, before the next command is looked at (FIFO; "at most
                         // once" is ownership, "at least once" is this obligation)   [C10]
                         assert(r24_trace.len() == t0 + 1);   // [C10]
